@@ -329,7 +329,8 @@ def load_cases(cases_p, modelrun, log):
             cases.append(Case(parts[0], parts[1], parts[2:-1], parts[-1]))
     t0 = time.time()
     with open(cases_p) as f:
-        p = subprocess.run([modelrun], stdin=f, stdout=subprocess.PIPE, stderr=subprocess.PIPE, text=True)
+        p = subprocess.run(["timeout", "900", modelrun], stdin=f, stdout=subprocess.PIPE, stderr=subprocess.PIPE,
+                           text=True)
     log.append(("modelrun < %s (%.1fs)" % (os.path.basename(cases_p), time.time() - t0), p.returncode))
     if p.returncode != 0:
         raise RuntimeError("extracted model runner failed:\n" + p.stderr[-2000:])
